@@ -173,24 +173,28 @@ def _blocks(chk, N):
     import hiten.algorithms.polynomial.base as pb
     import hiten.algorithms.polynomial.operations as po
 
-    def setup(alg):
-        psi, clmo = pb._init_index_tables(N)
+    def setup(alg, M=None):
+        M = N if M is None else M
+        psi, clmo = pb._init_index_tables(M)
         enc = pb._create_encode_dict_from_clmo(clmo)
-        vs = [po._polynomial_variable(i, N, psi, clmo, enc) for i in range(6)]
+        vs = [po._polynomial_variable(i, M, psi, clmo, enc) for i in range(6)]
         return psi, clmo, enc, vs
 
     def th_T():
         alg = RingAlg(["dummy"], False)
         with exact(alg):
-            psi, clmo, enc, vs = setup(alg)
-            T = hh._build_T_polynomials(vs[0], vs[1], vs[2], N, psi, clmo, enc)
-            for n in range(N + 1):
-                got = polyx.list_to_dict(T[n])
-                want = {(i, j, k, 0, 0, 0): alg.const(v) for (i, j, k), v in _legendre_solid(n).items()}
-                ok, key = polyx.d_equal(got, want)
-                if not ok:
-                    raise Refuted(f"T_{n}: coefficient of monomial {key} differs from rho^n P_n(x/rho)",
-                                  f"got {got.get(key, 0)}, Rodrigues gives {want.get(key, 0)}")
+            # every truncation degree from the lower edge of the property's range (2) upward: the recurrence has
+            # start-up cases of its own
+            for M in sorted({2, 3, 4, N}):
+                psi, clmo, enc, vs = setup(alg, M)
+                T = hh._build_T_polynomials(vs[0], vs[1], vs[2], M, psi, clmo, enc)
+                for n in range(M + 1):
+                    got = polyx.list_to_dict(T[n])
+                    want = {(i, j, k, 0, 0, 0): alg.const(v) for (i, j, k), v in _legendre_solid(n).items()}
+                    ok, key = polyx.d_equal(got, want)
+                    if not ok:
+                        raise Refuted(f"max_deg = {M}: T_{n}: coefficient of monomial {key} differs from rho^n P_n(x/rho)",
+                                      f"got {got.get(key, 0)}, Rodrigues gives {want.get(key, 0)}", inputs={"max_deg": M, "n": n})
     chk.obl(f"_build_T_polynomials: T_n == rho^n P_n(x/rho) exactly, n <= {N} (Rodrigues' formula)", "K5 closed (exact rationals)",
             [HH + ":_build_T_polynomials"], "B3 exact ring normal form", th_T)
 
